@@ -2,6 +2,7 @@ package props
 
 import (
 	"fmt"
+	"go/constant"
 	"math/big"
 	"strings"
 
@@ -238,10 +239,30 @@ func ruleSemGate(e *Env, rule, numRule string) {
 				return "input[0]==" + c.V.ExactString(), true
 			}
 		}
+		if as := a.String(); as == "len(input)" || as == "len(slice[1:](input))" {
+			if c, ok := b.(pred.Const); ok && c.V != nil && c.V.Kind() == constant.Int {
+				return as + "?" + c.V.ExactString(), true
+			}
+		}
 		return errKeyOf(a, b)
+	}
+	// shortest word of the pattern: under the table's standing assumption "the pattern matched" the subject is at least
+	// that long, so a length pre-filter below it never fires
+	minSubject := int64(0)
+	if g := e.V("sem", "pattern"); g != nil {
+		if re := e.C.RegexpOfGlobal(g); re != nil {
+			minSubject = int64(flow.MinLen(re))
+		}
 	}
 	fixed := func(a, b pred.Val) (int, bool, bool) {
 		as, bs := a.String(), b.String()
+		if as == "len(input)" || as == "len(slice[1:](input))" {
+			if c, ok := b.(pred.Const); ok && c.V != nil && c.V.Kind() == constant.Int {
+				if k, exact := constant.Int64Val(c.V); exact && k > 0 && k < minSubject {
+					return 1, true, true
+				}
+			}
+		}
 		switch {
 		case as == "len(input)" && bs == "0":
 			return 1, true, true
@@ -257,7 +278,18 @@ func ruleSemGate(e *Env, rule, numRule string) {
 	mk := func() []pred.Val {
 		return []pred.Val{pred.Sym{Name: "fn"}, pred.Sym{Name: "input"}, pred.Sym{Name: "f"}}
 	}
-	leaves, err := extractTree(e.P.SSA, ut, mk, nil, fixed, keyOf, binDomain)
+	lenDomain := func(key string) []int {
+		if strings.HasPrefix(key, "len(") {
+			var k int64
+			fmt.Sscanf(key[strings.LastIndex(key, "?")+1:], "%d", &k)
+			if k == minSubject {
+				return []int{0, 1} // at least the shortest word: equal or longer
+			}
+			return []int{-1, 0, 1}
+		}
+		return []int{0, 1}
+	}
+	leaves, err := extractTree(e.P.SSA, ut, mk, nil, fixed, keyOf, lenDomain)
 	if err != nil {
 		e.S.Unk(rule, site, "table", err.Error(), e.Pos(ut))
 		return
